@@ -9,7 +9,7 @@
 (* indices, so that TLC's workers share the file.  The driver checks that  *)
 (* the number of distinct states equals the number of records.             *)
 (***************************************************************************)
-EXTENDS Props, Json, IOUtils
+EXTENDS Unquote, Json, IOUtils
 
 CONSTANTS W,      \* number of chains
           PROP    \* property id, e.g. "C02"
@@ -55,6 +55,13 @@ Clauses(r) ==
          << <<"C10_strexpr", C10_strexpr(r)>>, <<"C10_strexpr_open", C10_strexpr_open(r)>>,
             <<"C10_datalines", C10_datalines(r)>>, <<"C10_label", C10_label(r)>>,
             <<"C10_call_paren", C10_call_paren(r)>> >>
+    [] PROP = "C06" ->
+         << <<"C06_shape", C06_shape(r)>>, <<"C06_payload_kind", C06_payload_kind(r)>>,
+            <<"C06_channel", C06_channel(r)>>, <<"C06_hidden", C06_hidden(r)>> >>
+    [] PROP = "C07" ->
+         << <<"C07_presence", C07_presence(r)>>, <<"C07_value", C07_value(r)>>,
+            <<"C07_hex_error", C07_hex_error(r)>>, <<"C07_partition", C07_partition(r)>>,
+            <<"C07_buffer_unused", C07_buffer_unused(r)>> >>
     [] OTHER -> <<>>
 
 Emit(id, cl) ==
